@@ -32,8 +32,11 @@ def explore(chk):
     b = core.Batch()
     ops = [b.add("scc.read", "%d/1" % p["offset"], core.enc(p["text"])) for p in progs]
     out = b.run() if chk.driver_ok else None
-    for p, o in zip(progs, ops):
-        I = sc.impl_read(p["text"], p["offset"])
+    import pycaption
+    shared_reader = pycaption.SCCReader()
+    for pi, (p, o) in enumerate(zip(progs, ops)):
+        # every third program is read with one long-lived reader object (offsets change from read to read)
+        I = sc.impl_read(p["text"], p["offset"], reader=shared_reader if pi % 3 == 0 else None)
         S = sccgen.spec_popon_timing(p)
         case = {"scc": p["text"], "offset": p["offset"], "impl": str(I[:2]) if I[0] == "err" else str([(float(c[0]), float(c[1])) for c in I[1]])}
         chk.case(key=p["text"] + str(p["offset"]), nontrivial=len(p["caps"]) > 1 or any(e[0] == "edm" for e in p["events"]),
